@@ -1,7 +1,7 @@
 (* C14 -- proofs about the sequential model of Api/Rest.v.
 
    Main results
-     run_fixed_spec            every history, repaired code: reply_i = spec(request_i)
+     run_fixed_spec            every history, repaired code: reply_i = fixed_reply(request_i)
      failure_contained         a failing request changes nobody else's reply
      handler_failure_reported  handler error / panic  ==>  error reply carrying its token
      rest_carryover_refuted    F17 witness (pinned code)
@@ -137,7 +137,7 @@ Definition rest_reply (regs : list reg) (q : rreq) : reply :=
   | None => RErr ENoRoute ""
   end.
 
-Definition spec_reply (w : world) (clients : list ckind) (cr : creq) : reply :=
+Definition model_reply (w : world) (clients : list ckind) (cr : creq) : reply :=
   match c_req cr with
   | QRest q => rest_reply (w_regs w) q
   | QWs path b =>
@@ -192,9 +192,9 @@ Qed.
 Lemma map_const_length {A B} (l : list A) (b : B) : List.length (map (fun _ => b) l) = List.length l.
 Proof. apply map_length. Qed.
 
-Theorem spec_closed_form w clients cr : spec w clients cr = spec_reply w clients cr.
+Theorem spec_closed_form w clients cr : fixed_reply w clients cr = model_reply w clients cr.
 Proof.
-  unfold spec, spec_reply, step. destruct (c_req cr) as [q|path b].
+  unfold fixed_reply, model_reply, step. destruct (c_req cr) as [q|path b].
   - pose proof (rest_step_fixed (w_regs w) (s_cells (init_state w)) q) as H.
     destruct (rest_step (fix_f17 all_fixed) (w_regs w) (s_cells (init_state w)) q) as [cells rep] eqn:E.
     simpl. change (fix_f17 all_fixed) with true in E. rewrite E in H. simpl in H.
@@ -214,10 +214,10 @@ Proof. split; simpl; [apply map_length|reflexivity]. Qed.
 
 Lemma step_fixed w clients st cr :
   wf_state w st ->
-  snd (step all_fixed w clients st cr) = spec w clients cr /\
+  snd (step all_fixed w clients st cr) = fixed_reply w clients cr /\
   wf_state w (fst (step all_fixed w clients st cr)).
 Proof.
-  intros [HL HD]. rewrite spec_closed_form. unfold step, spec_reply.
+  intros [HL HD]. rewrite spec_closed_form. unfold step, model_reply.
   destruct (c_req cr) as [q|path b].
   - pose proof (rest_step_fixed (w_regs w) (s_cells st) q HL) as [H1 H2].
     change (fix_f17 all_fixed) with true.
@@ -231,7 +231,7 @@ Qed.
 (* C14, sequential form: whatever the history and whatever state it left behind,
    every reply is the one computed from that request alone. *)
 Theorem run_fixed_spec w clients : forall l st,
-  wf_state w st -> snd (run all_fixed w clients st l) = map (spec w clients) l.
+  wf_state w st -> snd (run all_fixed w clients st l) = map (fixed_reply w clients) l.
 Proof.
   induction l as [|cr l IH]; intros st Hwf; [reflexivity|].
   simpl. pose proof (step_fixed w clients st cr Hwf) as [H1 H2].
@@ -256,7 +256,7 @@ Proof. apply init_wf. Qed.
 Corollary failure_contained w clients l1 cr l2 :
   snd (run all_fixed w clients (init_state w) (l1 ++ cr :: l2)%list) =
   (snd (run all_fixed w clients (init_state w) l1) ++
-   spec w clients cr :: snd (run all_fixed w clients (init_state w) l2))%list.
+   fixed_reply w clients cr :: snd (run all_fixed w clients (init_state w) l2))%list.
 Proof.
   rewrite !run_fixed_spec by apply init_wf. rewrite map_app. reflexivity.
 Qed.
@@ -264,9 +264,9 @@ Qed.
 (* the specification of a request looks at no other client *)
 Theorem spec_local w clients clients' cr :
   nth_error clients (c_client cr) = nth_error clients' (c_client cr) ->
-  spec w clients cr = spec w clients' cr.
+  fixed_reply w clients cr = fixed_reply w clients' cr.
 Proof.
-  intro H. rewrite !spec_closed_form. unfold spec_reply. destruct (c_req cr); [reflexivity|].
+  intro H. rewrite !spec_closed_form. unfold model_reply. destruct (c_req cr); [reflexivity|].
   now rewrite H.
 Qed.
 
@@ -329,11 +329,11 @@ Definition post (b : jbody) : creq := CReq 0 (QRest (RReq 0 3 MPost true "" b)).
 (* F17: POST {"S":"42"} then POST {}: the second is answered as if it carried S="42" *)
 Theorem rest_carryover_refuted :
   exists w clients l,
-    snd (run pinned w clients (init_state w) l) <> map (spec w clients) l /\
+    snd (run pinned w clients (init_state w) l) <> map (fixed_reply w clients) l /\
     l = [post (BObj [("S", JStr "42" None)]); post (BObj [])] /\
     snd (run pinned w clients (init_state w) l) =
       [ROk 10 (Msg "42" 0 false ""); ROk 10 (Msg "42" 0 false "")] /\
-    map (spec w clients) l = [ROk 10 (Msg "42" 0 false ""); RErr EHandler "empty"].
+    map (fixed_reply w clients) l = [ROk 10 (Msg "42" 0 false ""); RErr EHandler "empty"].
 Proof.
   exists demo_world, [CKind true true], [post (BObj [("S", JStr "42" None)]); post (BObj [])].
   split; [vm_compute; discriminate|]. repeat split; vm_compute; reflexivity.
@@ -344,7 +344,7 @@ Theorem rest_carryover_from_rejected_refuted :
   let l := [post (BObj [("S", JStr "zz" None); ("I", JStr "x" None)]); post (BObj [("I", JNum 1)])] in
   snd (run pinned demo_world [CKind true true] (init_state demo_world) l) =
     [RErr EDecode ""; ROk 10 (Msg "zz" 1 false "")] /\
-  map (spec demo_world [CKind true true]) l = [RErr EDecode ""; RErr EHandler "empty"].
+  map (fixed_reply demo_world [CKind true true]) l = [RErr EDecode ""; RErr EHandler "empty"].
 Proof. split; vm_compute; reflexivity. Qed.
 
 Definition wsreq (c : nat) (s : string) : creq :=
@@ -357,7 +357,7 @@ Theorem keep_dead_refuted :
   let l := [wsreq 0 "a"; wsreq 0 "fail-1"; wsreq 0 "a"; wsreq 1 "a"] in
   snd (run pinned demo_world clients (init_state demo_world) l) =
     [ROk 1 (Msg "a" 0 false ""); RErr EHandler "fail-1"; RErr EDeadConn ""; ROk 1 (Msg "a" 0 false "")] /\
-  map (spec demo_world clients) l =
+  map (fixed_reply demo_world clients) l =
     [ROk 1 (Msg "a" 0 false ""); RErr EHandler "fail-1"; ROk 1 (Msg "a" 0 false ""); ROk 1 (Msg "a" 0 false "")].
 Proof. split; vm_compute; reflexivity. Qed.
 
@@ -401,10 +401,10 @@ Definition safe (w : world) (clients : list ckind) (cr : creq) : bool :=
 
 Lemma step_pinned_safe w clients st cr :
   wf_state w st -> safe w clients cr = true ->
-  snd (step pinned w clients st cr) = spec w clients cr /\
+  snd (step pinned w clients st cr) = fixed_reply w clients cr /\
   wf_state w (fst (step pinned w clients st cr)).
 Proof.
-  intros [HL HD] Hs. rewrite spec_closed_form. unfold step, spec_reply, safe in *.
+  intros [HL HD] Hs. rewrite spec_closed_form. unfold step, model_reply, safe in *.
   destruct (c_req cr) as [q|path b].
   - change (fix_f17 pinned) with false. unfold rest_step, rest_reply.
     destruct (nth_error (w_regs w) (q_res q)) as [r|] eqn:Er.
@@ -426,7 +426,7 @@ Qed.
    reads, and no keeping client's request fails, are answered per the specification *)
 Theorem run_pinned_spec_restricted w clients : forall l st,
   wf_state w st -> forallb (safe w clients) l = true ->
-  snd (run pinned w clients st l) = map (spec w clients) l.
+  snd (run pinned w clients st l) = map (fixed_reply w clients) l.
 Proof.
   induction l as [|cr l IH]; intros st Hwf Hs; [reflexivity|].
   simpl in Hs. apply andb_true_iff in Hs as [Hs1 Hs2].
